@@ -461,6 +461,9 @@ fn radix26(mut i: usize) -> String {
 pub const NOISE: [&[u8]; 7] = [b"", b"garbage", b"    garbage", b"a -> b", b"  int x -> y", b"\xff\xfe", b"\"}"];
 /// the unterminated sourceFile header: a malformed line like any other (C01: "unparseable lines")
 pub const NOISE_UNTERMINATED: &[u8] = b"# {\"id\":\"sourceFile\",\"fileName\":\"x";
+/// R8's member-level metadata comments: indented, therefore not header records of the documented grammar (today: error
+/// items, which the builders' one-record look-ahead skips). Indices 8 and 9 of the noise list of MS-E.
+pub const NOISE_R8_MEMBER_COMMENTS: [&[u8]; 2] = [b"      # {\"id\":\"com.android.tools.r8.synthesized\"}", b"    # {\"id\":\"com.android.tools.r8.outline\"}"];
 
 /// MS-E form invariance: base files x terminators x noise insertion x block permutation
 /// level 0: small (MS-B <= 2 bases, every 20th MS-C file), 1: MS-B <= 3, every 5th MS-C file, 2: everything + noise pairs
@@ -486,6 +489,7 @@ pub fn ms_e(level: usize) -> ListSpace {
     }
     let mut noise: Vec<&'static [u8]> = NOISE.to_vec();
     noise.push(NOISE_UNTERMINATED);
+    noise.extend_from_slice(&NOISE_R8_MEMBER_COMMENTS);
     let mut files = Vec::new();
     for b in &bases {
         for t in TERMS {
@@ -496,7 +500,7 @@ pub fn ms_e(level: usize) -> ListSpace {
         // one noise line at every position (bases of 3 lines: the three most different noise kinds unless thorough)
         for pos in 0..=b.len() {
             for (ni, nz) in noise.iter().enumerate() {
-                if !thorough && b.len() >= 3 && ![0usize, 1, 7].contains(&ni) {
+                if !thorough && b.len() >= 3 && ![0usize, 1, 7, 8].contains(&ni) {
                     continue;
                 }
                 let mut f = b.clone();
@@ -576,7 +580,7 @@ pub fn ms_e(level: usize) -> ListSpace {
     }
     ListSpace {
         name: "MS-E form invariance".into(),
-        note: "every MS-B file of <=3 lines and MS-C files, under: each terminator policy (CRLF, CR, LF without final newline, blank line after every line); one noise line under LF (and, for bases of <= 2 lines, under every terminator policy) (blank, 'garbage', '    garbage', 'a -> b', '  int x -> y', invalid UTF-8, '\"}', unterminated sourceFile header) at every position (thorough: two); every permutation of class blocks with pairwise distinct names".into(),
+        note: "every MS-B file of <=3 lines and MS-C files, under: each terminator policy (CRLF, CR, LF without final newline, blank line after every line); one noise line under LF (and, for bases of <= 2 lines, under every terminator policy) (blank, 'garbage', '    garbage', 'a -> b', '  int x -> y', invalid UTF-8, '\"}', unterminated sourceFile header, R8's indented member-level '# {json}' comments with 6 and 4 blanks) at every position (thorough: two); every permutation of class blocks with pairwise distinct names".into(),
         files,
         wide: false,
         chunk: Default::default(),
@@ -845,8 +849,10 @@ fn oracle_c03(model: &Model, uni: &Universe, subjects: &[&dyn Subj; 3], acc: &mu
                 for (i, s) in subjects.iter().enumerate() {
                     s.remap_frame(class, method, 0, None, Some(params), &mut sout);
                     acc.observations += 1;
-                    // subject 0 is the mapper built without the parameter index: no answer
-                    let exp = if i == 0 { &empty } else { &mout };
+                    // subject 0 is the mapper built without the parameter index. The statement speaks of "the mapper built
+                    // with parameter index" and the cache; a mapper without the index may stay silent (today's behaviour)
+                    // or answer — but if it answers, it answers as the statement says.
+                    let exp = if i == 0 && sout.is_empty() { &empty } else { &mout };
                     if let Some(field) = frames_diff(exp, &sout) {
                         let lab = if i == 0 { "mapper-noindex" } else { s.label() };
                         acc.violation(format!("{}:byparams:{}", lab, field), size, || {
